@@ -254,6 +254,11 @@ impl RunState {
         self.flag
     }
 
+    #[inline]
+    pub(super) fn orig(&self) -> u16 {
+        self.orig
+    }
+
     pub(super) fn memory_equals(&self, other: &RunState, start: u16, end: u16) -> bool {
         for addr in start..=end {
             if self.mem(addr) != other.mem(addr) {
